@@ -354,13 +354,25 @@ func vC13PeerSetEndToEnd(r *vRand) {
 			note("disconnect", closedWithin(ch, patience))
 			// (c) revocation of a connected key, with a bystander
 			leaveA2, err1 := connect(a)
-			leaveB, err2 := connect(b)
-			if err1 != nil || err2 != nil || !vWaitUntil(patience, func() bool { return ls.S.OpenConnections() == 2 }) {
+			if err1 != nil || !vWaitUntil(patience, func() bool { return ls.S.OpenConnections() == 1 }) {
 				fail = "harness-handshake-failed"
 				return
 			}
 			defer leaveA2()
+			// (c0) an update of the keys which drops nobody, then a peer connects: the watcher from before the update is told
+			ch = ls.S.GetConnectionNotifyChan()
+			if err := ls.S.UpdatePublicKeys(a.Pub, b.Pub, vGenKey(r).Pub); err != nil {
+				fail = "harness-update-failed"
+				return
+			}
+			time.Sleep(20 * time.Millisecond)
+			leaveB, err2 := connect(b)
+			if err2 != nil || !vWaitUntil(patience, func() bool { return ls.S.OpenConnections() == 2 }) {
+				fail = "harness-handshake-failed"
+				return
+			}
 			defer leaveB()
+			note("connect-after-an-update-which-drops-nobody", closedWithin(ch, patience))
 			ch = ls.S.GetConnectionNotifyChan()
 			if err := ls.S.UpdatePublicKeys(b.Pub); err != nil {
 				fail = "harness-update-failed"
